@@ -1,8 +1,10 @@
 import Ufo2ftModel.Drv.C03
+import Ufo2ftModel.Drv.C04
 namespace Ufo2ft.Drv
 open Lean
 def dispatch (p op : String) (req : Json) : R Reply :=
   match p with
   | "C03" => C03.handle op req
+  | "C04" => C04.handle op req
   | _ => throw s!"unknown property {p}"
 end Ufo2ft.Drv
